@@ -275,6 +275,12 @@ func (t *Tree) RemoveTips(revert bool, names ...string) error {
 			}
 		}
 	}
+	// If the tip index was initialized, removed tips must not remain in it
+	if len(t.tipIndex) > 0 {
+		if err := t.UpdateTipIndex(); err != nil {
+			return err
+		}
+	}
 	t.ReinitInternalIndexes()
 	return nil
 }
